@@ -1,5 +1,5 @@
 //@unit header
-//@serves C01 C02 C16
+//@serves C01 C02 C16 C21
 use vstd::prelude::*;
 use std::collections::HashMap;
 verus! {
@@ -438,7 +438,7 @@ pub fn vx_tail(v: &Vec<ExtendedHeader>) -> (r: &[ExtendedHeader])
 pub struct VerifiedExtendedHeaders(pub Vec<ExtendedHeader>);
 impl VerifiedExtendedHeaders {
 //@fn impl TryFrom<Vec<ExtendedHeader>> for VerifiedExtendedHeaders :: try_from @ node/src/store/utils.rs
-//@props C02
+//@props C02 C21
     pub fn try_from(headers: Vec<ExtendedHeader>) -> (res: Result<Self>)
         requires forall|i: int| 0 <= i < headers@.len() ==> eh_inv(#[trigger] headers@[i])
         ensures res.is_ok() ==> res.unwrap().0@ == headers@ && chain_ok(headers@)
